@@ -307,9 +307,10 @@ def opt_dec(s):
 
 
 KNOWN_STDIN_OUTPUT = {"argv": ["--stdin", "out.css"], "stdin": "a{b:c}"}
-KNOWN_UNFLUSHED = {"argv": ["--style", "compressed", "io/small.scss"], "input": "a{b:c}", "stdin": None, "stdout": "/dev/full"}
+# fixed in /repo cea0756; stays as a regression case (first case of io_failure_cases)
+FIXED_UNFLUSHED = {"argv": ["--style", "compressed", "io/small.scss"], "input": "a{b:c}", "stdin": None, "stdout": "/dev/full"}
 # minimised past failures / known-finding witnesses, replayed on every run (besides `fixed_inputs()`, which run first)
-CORPUS = [KNOWN_STDIN_OUTPUT, KNOWN_UNFLUSHED]
+CORPUS = [KNOWN_STDIN_OUTPUT, FIXED_UNFLUSHED]
 
 
 def run(tier, seed):
@@ -624,9 +625,9 @@ def _run(ck, tier, root, static_broken):
 
 def io_failure_cases(ck, root):
     """A sink that cannot take the CSS: stdout redirected to /dev/full, OUTPUT=/dev/full.
-    P̂ = the SPECIFIED outcome (`outcomeIO true`: non-zero exit + OS error on stderr whenever there was
-    CSS to deliver); the tie accepts the as-found variant (`outcomeIO false`) too, and a run that matches
-    only the as-found variant is the known finding C20-unflushed-stdout."""
+    Regression cases of the fixed defect C20-unflushed-stdout (/repo cea0756).  P̂ = `outcomeIO true`, the
+    code as it stands and the specified behaviour: non-zero exit + OS error on stderr whenever there was
+    CSS to deliver.  A failing run that matches the pre-fix variant (`outcomeIO false`) is labelled so."""
     if not os.path.exists("/dev/full"):
         ck.notes.append("no /dev/full on this machine: I/O-failure cases skipped")
         return
@@ -674,16 +675,12 @@ def io_failure_cases(ck, root):
         ck.hist("io-failure:" + c["kind"] + ":" + ("lib-err" if c["lib"][0] == "err" else "<1KiB" if size < 1024 else "<8KiB" if size < 8192 else ">64KiB" if size > 65536 else "8-64KiB"))
         if spec == "ok 1":
             continue
-        tags = ["C20-unflushed-stdout"] if found == "ok 1" else []
-        if found != "ok 1":
-            ck.cov["model_disagreements"] += 1
-            ck.disagreements.append({"argv": c["argv"], "stdout_redirected_to": c["stdout"], "model": "outcomeIO (as found and specified) both disagree",
-                                     "binary": _obs_json(o)})
         key = {"argv": c["argv"], "input": c["input"], "stdin": c["stdin"], "stdout": c["stdout"]}
         ck.impl_violation(json.dumps(key, sort_keys=True),
                           {"argv": c["argv"], "input": c["input"][:300], "stdin": c["stdin"] is not None, "stdout_redirected_to": c["stdout"],
                            "css_bytes": size, "observed": _obs_json(o),
-                           "expected_by_property": "the CSS could not be written: non-zero exit and the I/O error on stderr"}, tags=tags)
+                           "matches_pre_fix_variant(no flush, C20-unflushed-stdout returned)": found == "ok 1",
+                           "expected_by_property": "the CSS could not be written: non-zero exit and the I/O error on stderr"}, tags=[])
 
 
 
